@@ -11,6 +11,7 @@ pattern, dtype, solver options, right-hand-side kind).  The lattice is the union
   slice   batched result vs. solving every batch element and column separately
   reject  documented rejections (non-square, mismatching, non-Hermitian M, non-broadcastable batches)
   f32     float32 forward values
+  scale   the system scaled by 1e-4 / 1e4 (stopping tests relative to the iterated right-hand side)
 """
 from __future__ import annotations
 import re
@@ -23,7 +24,7 @@ from mc.props._solve_common import DT, EPS, shp, bcast_shape
 ID = "C01"
 LEVEL = "exploration"
 DESIGN_REF = "DESIGN.md §5 C01"
-RULE = ("case = one point of the union of seven complete sub-lattices (op / batch / opt / rhs / slice / reject / "
+RULE = ("case = one point of the union of eight complete sub-lattices (op / batch / opt / rhs / slice / reject / scale / "
         "f32, see module docstring) over operator kind (17) x method (7) x {no E, E, E+M, M only} x E dtype x "
         "spectrum class (SPD, indefinite Hermitian, non-normal non-Hermitian) x n x ncols x batch shapes of "
         "(A, B, E, M) x dtype x (tolerance, posdef, max_niter, resid_calc_every | Broyden maxiter, line_search, "
@@ -57,6 +58,8 @@ TOLS = {   # name -> dtype class -> (rtol, atol, f_tol, x_tol)
     "std": {"f64": (1e-6, 1e-8, 1e-7, 1e-7), "f32": (3e-4, 1e-5, 1e-3, 1e-3)},
     "tight": {"f64": (1e-9, 1e-11, 1e-10, 1e-10), "f32": (3e-4, 1e-5, 1e-3, 1e-3)},
     "loosex": {"f64": (1e-6, 1e-8, 1e-9, 1e-2), "f32": (3e-4, 1e-5, 1e-3, 1e-1)},
+    # purely relative stopping test (the absolute floor never decides): used by the scale plane
+    "rel": {"f64": (1e-7, 1e-30, 1e-8, 1e-8), "f32": (3e-4, 1e-30, 1e-3, 1e-3)},
 }
 
 DEFAULTS = {"plane": "op", "method": "exactsolve", "opkind": "dense", "mkind": "dense", "E": "none",
@@ -293,9 +296,37 @@ def _plane_f32(tier):
     return out
 
 
+def _plane_scale(tier):
+    """the whole system A - e M scaled by 1e-4 / 1e4 (A and E scaled, M and B unchanged): the stopping tests are
+    relative to the right-hand side of the system actually iterated on, whatever the norm of the operator.
+    n = 24, kappa = 30: large enough that the Krylov iterations do not terminate by exhausting the space, so the
+    iterate at which the stopping test fires is visible in the residual"""
+    out = []
+    kinds = ["dense_auto", "mv"] if tier == "quick" else ["dense_auto", "mv", "mvrmv", "add"]
+    for dtype in ["f64", "c128"]:
+        for spec in SPECS:
+            for kind in kinds:
+                if not kind_ok(kind, spec, dtype):
+                    continue
+                for (em, ed) in emodes_for(dtype):
+                    if ed == "real" and dtype == "c128":
+                        continue
+                    for scale in (1e-4, 1e4):
+                        for tol in (["rel"] if tier == "quick" else ["rel", "std"]):
+                            for method in ("exactsolve", "cg", "bicgstab", "gmres"):
+                                for posdef in ([None] if tier == "quick" else [None, False]):
+                                    c = mk(plane="scale", method=method, opkind=kind, E=em, Edtype=ed, dtype=dtype,
+                                           spec=spec, n=24, ncols=2, kappa=30.0, tol=tol, posdef=posdef,
+                                           **_pat(em, BATCH3[1]))
+                                    c["scale"] = scale
+                                    out.append(c)
+    return out
+
+
 def cases(tier, seed):
     vseeds = [0] if tier == "quick" else [0] + [int(seed) * 1000 + k for k in (1, 2, 3)]
     out = []
+    out += _plane_scale(tier)
     out += _plane_reject(tier)
     out += _plane_op(tier, vseeds)
     out += _plane_batch(tier)
@@ -304,7 +335,7 @@ def cases(tier, seed):
     out += _plane_slice(tier)
     out += _plane_f32(tier)
     # canonical order: simplest first (stable sort on a few size keys)
-    order = {"reject": 0, "op": 1, "batch": 2, "rhs": 3, "slice": 4, "f32": 5, "opt": 6}
+    order = {"reject": 0, "op": 1, "batch": 2, "rhs": 3, "slice": 4, "f32": 5, "opt": 6, "scale": 7}
     out.sort(key=lambda c: (order[c["plane"]], c["vseed"] != 0, c["n"] * c["ncols"]))
     return out
 
@@ -358,6 +389,11 @@ def build_case(cfg):
                         cfg["kappa"], cfg["vseed"], cfg["B"])
     if em == "M":
         p["E"] = None
+    s = cfg.get("scale")
+    if s is not None:
+        p["A"] = p["A"] * s
+        if p["E"] is not None:
+            p["E"] = p["E"] * s
     return p
 
 
